@@ -102,11 +102,13 @@ theorem set_crash_safe (d : Dir) (k : Key) (v : Bytes) (i : Nat) :
   · unfold Storage.get
     rcases h2 with h | h
     · left; simp only [h]
-    · by_cases hs : (fileName k).contains 47 = true
-      · left; simp only [hs, ↓reduceIte]
-      · by_cases hd : isDirName (fileName k) = true
-        · left; simp only [hd, ↓reduceIte]
-        · right; simp only [hs, hd, h]; simp
+    · by_cases ht : isTempName (fileName k) = true
+      · left; simp only [ht, ↓reduceIte]
+      · by_cases hs : (fileName k).contains 47 = true
+        · left; simp only [hs, ↓reduceIte]
+        · by_cases hd : isDirName (fileName k) = true
+          · left; simp only [hd, ↓reduceIte]
+          · right; simp only [ht, hs, hd, h]; simp
   · intro k' hk1 hk2
     unfold Storage.get
     simp only [h3 (fileName k') hk1 hk2]
